@@ -20,7 +20,11 @@
 (* holds; with one of them TRUE TLC exhibits the defect on the model:      *)
 (*   AliasDefaults   the decoded default map of a by-value sub-object is   *)
 (*                   handed into the raw data and extended IN PLACE by     *)
-(*                   sub-object default propagation (object.go 452-480)    *)
+(*                   sub-object default propagation (object.go 452-480);   *)
+(*                   for kind "objnest": the propagation assembles the     *)
+(*                   value of a map-based sub-object ON that sub-object's  *)
+(*                   own decoded-defaults map, so the defaults of the      *)
+(*                   nested object become a "declared default" of it       *)
 (*   LazyUnsync      the lazy caches (units.go 230-241, 251-253, 317-345;  *)
 (*                   object.go 69-74) are read, built and written without  *)
 (*                   synchronisation                                       *)
@@ -36,6 +40,16 @@
 (*                   success path of the property loop only: after a value *)
 (*                   rejected because of one of its fields, the next       *)
 (*                   struct value sees phantom present fields              *)
+(*   SharedMarks     the guard of the single-property shorthand (a non-map *)
+(*                   value handed down a chain of single-property objects) *)
+(*                   marks the objects it walks over ON THE SHARED SCHEMA  *)
+(*                   VALUES instead of in a per-call set: two calls see    *)
+(*                   each other's marks and reject valid input             *)
+(*   SharedInProgress the recursion guard of schema-vs-schema object       *)
+(*                   compatibility keeps its set of comparisons in         *)
+(*                   progress ACROSS CALLS (package level, mutex-guarded:  *)
+(*                   no data race): a call meeting another call's entry    *)
+(*                   answers "compatible"                                  *)
 (*   NoStepMutex     setupStepData without initializerMutex (step.go 201)  *)
 (*   EnumEarlyReturn enum compatibility returns at the first matching key  *)
 (*                   (enum.go 53-97 before its repair)                     *)
@@ -51,7 +65,7 @@
 EXTENDS Integers, Sequences, FiniteSets, TLC
 
 CONSTANTS G, MaxCalls, Kinds, Origins,
-          AliasDefaults, LazyUnsync, CollideEither, StripInPlace, StripRestore, DirtyScratch, NoStepMutex,
+          AliasDefaults, LazyUnsync, CollideEither, StripInPlace, StripRestore, DirtyScratch, SharedMarks, SharedInProgress, NoStepMutex,
           EnumEarlyReturn, SubOverride
 
 VARIABLES inst,          \* [kind, origin]
@@ -63,8 +77,10 @@ VARIABLES inst,          \* [kind, origin]
           unitCache,     \* unitCache[u] = [sorted, re, names]
           table,         \* run table of the callable step: table[r] \in {"absent","init"}
           initCount,     \* initializer invocations per run
-          scratch,       \* the recycled scratch map of validateStruct (package-level pool): the set of
-                         \* property paths it still holds when handed out; {} in the design the property demands
+          scratch,       \* scratch state that must be PER CALL but is shared under a deviation: the recycled map
+                         \* of validateStruct (property paths it still holds), the walk marks of the shorthand
+                         \* guard (levels "L1".."L3"), the comparisons in progress ("pair.root", "pair.lim");
+                         \* always {} in the design the property demands
           mutex,         \* holder of each lock (0 = free)
           descr,         \* the self-description (derived from immutable fields)
           argmem,        \* argmem[g]: the caller-owned argument map while a call is in flight
@@ -103,7 +119,9 @@ Built(m) == [st |-> "built", m |-> m]
 DeclRoot(kind) == CASE kind = "objmap"    -> Flat(7, Absent, Absent, Absent)
                     [] kind = "objstruct" -> Flat(7, Absent, 5, Absent)      \* n: 7, s: {"a":5}
                     [] OTHER              -> Empty
-DeclInner(kind) == IF kind = "objstruct" THEN Flat(Absent, Absent, 3, 9) ELSE Empty   \* a: 3, b: 9
+DeclInner(kind) == CASE kind = "objstruct" -> Flat(Absent, Absent, 3, 9)     \* a: 3, b: 9
+                     [] kind = "objnest" -> Flat(Absent, Absent, 2, 6)       \* the leaf object: f: 2, w: 6
+                     [] OTHER -> Empty
 Decoded(kind, o) == IF o = "root" THEN DeclRoot(kind) ELSE DeclInner(kind)
 HasSub(kind) == kind = "objstruct"
 \* struct-mapped objects propagate sub-object defaults; a schema rebuilt from its description is map-based
@@ -120,6 +138,27 @@ DepVerdict(present, m) ==
     /\ ("sb" \in present \/ "t" \in present)
 PresentIn(m) == {p \in P : m[p] # Absent}
 
+\* "objnest": struct-mapped root {n?, limits?: mid}; mid is MAP-BASED {u?, burst?: leaf} and has no default of
+\* its own; leaf {f default 2, w default 6}.  Paths: n = root.n, t = limits.u, sa / sb = limits.burst.f / .w.
+\* The tokens in LimToks stand for arguments in which "limits" is given (possibly empty).  `cell` is mid's own
+\* decoded-defaults map, restricted to its burst property: Empty as declared.
+LimToks == {"lim_empty", "lim_u", "lim_burst_f", "lim_rand"}
+LeafDefaults == Flat(Absent, Absent, 2, 6)
+NestStruct(i) == i.kind = "objnest" /\ i.origin # "rebuilt"
+\* mid.Unserialize of the given limits; midDefault = what mid's defaults hold for burst
+MidUnser(m, midDefault) ==
+    LET given == Restrict(m, SubPaths)
+        burst == IF given # Empty THEN FillFrom(given, LeafDefaults)
+                 ELSE IF midDefault # Empty THEN FillFrom(midDefault, LeafDefaults) ELSE Empty
+    IN MergeOver(Restrict(m, {"t"}), burst)
+
+\* "chain": L1 -> L2 -> L3 -> integer, single-property objects; a non-map value is handed down the chain
+\* (shorthand) after a guard has walked the rest of the chain at every level.
+\* "compat2": Root{..., limits: ref Limits} compared, schema against schema, with a compatible copy ("same") or
+\* with one that differs deep inside ("deep").
+Lv == <<"L1", "L2", "L3">>
+Depth == 3
+
 ObjKinds == {"objmap", "objstruct"}
 UnitKinds == {"units", "units0"}
 
@@ -135,6 +174,17 @@ Ops(kind) ==
            {Call("unser", Arg("empty", Empty)), Call("unser", Arg("n1", Flat(1, Absent, Absent, Absent))),
             Call("unser", Arg("s_a1", Flat(Absent, Absent, 1, Absent))), Call("unser", Arg("bad", Empty)),
             Call("ser", Arg("full", Flat(1, Absent, 1, 1)))}
+      [] kind = "chain" ->
+           {Call("unser", Arg("scalar", Empty)), Call("unser", Arg("badscalar", Empty)),
+            Call("unser", Arg("nested", Empty)), Call("compat", Arg("scalar", Empty))}
+      [] kind = "compat2" ->
+           {Call("compat", Arg("same", Empty)), Call("compat", Arg("deep", Empty))}
+      [] kind = "objnest" ->
+           {Call("unser", Arg("empty", Empty)), Call("unser", Arg("n1", Flat(1, Absent, Absent, Absent))),
+            Call("unser", Arg("lim_empty", Empty)), Call("unser", Arg("lim_u", Flat(Absent, 1, Absent, Absent))),
+            Call("unser", Arg("lim_burst_f", Flat(1, Absent, 7, Absent))),
+            \* the sub-object of the scope on its own
+            Call("unsermid", Arg("lim_empty", Empty)), Call("unsermid", Arg("lim_u", Flat(Absent, 1, Absent, Absent)))}
       [] kind = "objdep" ->
            {Call(op, Arg("bad_c", Flat(Absent, 1, 100, 1))) : op \in {"valid", "ser", "unser"}}
            \cup {Call(op, Arg("a_d", Flat(1, Absent, Absent, 1))) : op \in {"valid", "ser", "unser"}}
@@ -192,6 +242,17 @@ PureSet(i, op, arg) ==
            (CASE arg.tok = "collide" -> {Res(TRUE, Empty, 1), Res(TRUE, Empty, 2), Res(FALSE, Empty, 0)}
               [] arg.tok = "single" -> {Res(TRUE, Empty, 1)}
               [] OTHER -> {Res(FALSE, Empty, 0)})
+      [] k = "chain" ->
+           (CASE arg.tok = "badscalar" -> {Res(FALSE, Empty, 0)}
+              [] op = "compat" -> {Res(TRUE, Empty, 0)}
+              [] OTHER -> {Res(TRUE, Empty, 5)})
+      [] k = "compat2" ->
+           (IF arg.tok = "same" THEN {Res(TRUE, Empty, 0)} ELSE {Res(FALSE, Empty, 0)})
+      [] k = "objnest" ->
+           (CASE op = "unsermid" -> {Res(TRUE, MidUnser(arg.m, Empty), 0)}
+              [] arg.tok \in LimToks -> {Res(TRUE, MergeOver(Restrict(arg.m, {"n"}), MidUnser(arg.m, Empty)), 0)}
+              \* limits left out: a struct-mapped parent builds it from the defaults of its sub-objects
+              [] OTHER -> {Res(TRUE, MergeOver(Restrict(arg.m, {"n"}), IF NestStruct(i) THEN LeafDefaults ELSE Empty), 0)})
       [] k = "objdep" ->
            (IF DepVerdict(PresentIn(arg.m), arg.m) THEN {Res(TRUE, arg.m, 0)} ELSE {Res(FALSE, Empty, 0)})
       [] k = "oneof" ->
@@ -207,7 +268,7 @@ PureSet(i, op, arg) ==
 
 \* ------------------------------------------------------------------ locals
 NoLoc == [sawNil |-> FALSE, names |-> "none", raw |-> Empty, priv |-> Empty, res |-> Res(FALSE, Empty, -9),
-          ord |-> 1]
+          ord |-> 1, lvl |-> 1, pos |-> 1, term |-> TRUE, marks |-> {}]
 NoCall == Call("none", Arg("none", Empty))
 
 InitialCaches(i) ==
@@ -270,6 +331,11 @@ Acc(g) ==
       [] pc[g] = "S3b" -> IF AliasDefaults THEN Wr("cell.s") ELSE NoAcc
       [] pc[g] = "S4"  -> IF AliasDefaults THEN Rd("cell.s") ELSE NoAcc
       [] pc[g] = "S5"  -> IF AliasDefaults /\ ~SPresent(g) THEN Rd("cell.s") ELSE NoAcc
+      [] pc[g] = "W1"  -> IF SharedMarks THEN Rd(Lv[loc[g].pos]) ELSE NoAcc
+      [] pc[g] = "W2"  -> IF SharedMarks THEN Wr(Lv[loc[g].pos]) ELSE NoAcc
+      [] pc[g] = "W3"  -> IF SharedMarks /\ loc[g].pos <= Depth THEN Wr(Lv[loc[g].pos]) ELSE NoAcc
+      [] pc[g] = "N2"  -> IF AliasDefaults THEN Wr("cell.mid") ELSE NoAcc
+      [] pc[g] = "N3"  -> Rd("cell.mid")
       [] pc[g] = "L1"  -> Rd("steps.table")
       [] pc[g] = "L2"  -> Wr("steps.table")
       [] pc[g] = "B1"  -> Wr("link.s")
@@ -304,6 +370,10 @@ Entry(c) ==
              IF LazyUnsync THEN "P1" ELSE "PL"
       [] K \in UnitKinds /\ c.op = "fmt" -> IF LazyUnsync THEN "F1" ELSE "FL"
       [] K \in ObjKinds /\ c.op = "unser" /\ c.arg.tok # "bad" -> IF LazyUnsync THEN "D1" ELSE "DL"
+      [] K = "chain" /\ c.arg.tok \in {"scalar", "badscalar"} -> "W1"
+      [] K = "compat2" -> "Q1"
+      [] K = "objnest" /\ (c.op = "unsermid" \/ c.arg.tok \in LimToks) -> "N3"
+      [] K = "objnest" /\ NestStruct(inst) -> "N2"
       [] K = "oneof" /\ c.arg.tok # "nodisc" -> "O1"
       [] K = "objdep" /\ c.op \in {"valid", "ser"} /\ inst.origin # "rebuilt" -> "V1"   \* validateStruct
       [] K = "steps" -> IF NoStepMutex THEN "L1" ELSE "L0"
@@ -513,6 +583,93 @@ OneOfMemberDone(g) ==
     /\ UNCHANGED <<inst, phase, link, defaultsCache, cell, unitCache, table, initCount, scratch, mutex, descr, cur, loc,
                    ncalls, hist>>
 
+\* ------------------------------------------------------------------ per-call scratch: shorthand guard, comparison guard
+ScratchFrame == UNCHANGED <<inst, phase, link, defaultsCache, cell, unitCache, table, initCount, mutex, descr, argmem,
+                            cur, ncalls, hist>>
+\* the set the call works on: its own, or - under the deviation - the shared one
+Mine(g, shared) == IF shared THEN scratch ELSE loc[g].marks
+\* next local record L, next set S
+Put(g, shared, L, S) ==
+    IF shared THEN scratch' = S /\ loc' = [loc EXCEPT ![g] = L]
+    ELSE scratch' = scratch /\ loc' = [loc EXCEPT ![g] = [L EXCEPT !.marks = S]]
+
+\* inlineShorthandTerminates, started at level lvl: is the object at pos already on the walk?
+WalkRead(g) ==
+    /\ At(g, "W1")
+    /\ LET L == loc[g] IN
+       IF Lv[L.pos] \in Mine(g, SharedMarks)
+       THEN Put(g, SharedMarks, [L EXCEPT !.term = FALSE, !.pos = L.lvl], Mine(g, SharedMarks)) /\ Goto(g, "W3")
+       ELSE Put(g, SharedMarks, L, Mine(g, SharedMarks)) /\ Goto(g, "W2")
+    /\ ScratchFrame
+\* mark it and go on to the object of its only property
+WalkMark(g) ==
+    /\ At(g, "W2")
+    /\ LET L == loc[g]
+           S == Mine(g, SharedMarks) \cup {Lv[L.pos]}
+       IN IF L.pos = Depth
+          THEN Put(g, SharedMarks, [L EXCEPT !.pos = L.lvl], S) /\ Goto(g, "W3")
+          ELSE Put(g, SharedMarks, [L EXCEPT !.pos = L.pos + 1], S) /\ Goto(g, "W1")
+    /\ ScratchFrame
+\* second pass: take the marks off, from lvl on while marked
+WalkClear(g) ==
+    /\ At(g, "W3")
+    /\ LET L == loc[g] IN
+       IF L.pos <= Depth /\ Lv[L.pos] \in Mine(g, SharedMarks)
+       THEN Put(g, SharedMarks, [L EXCEPT !.pos = L.pos + 1], Mine(g, SharedMarks) \ {Lv[L.pos]}) /\ Goto(g, "W3")
+       ELSE Put(g, SharedMarks, L, Mine(g, SharedMarks)) /\ Goto(g, "W4")
+    /\ ScratchFrame
+\* "leads back into itself": the value is refused; else the value goes to the next level, which guards again
+WalkDone(g) ==
+    /\ At(g, "W4")
+    /\ LET L == loc[g]
+           want == CHOOSE r \in PureSet(inst, cur[g].op, cur[g].arg) : TRUE
+       IN CASE ~L.term -> SetLoc(g, "res", Res(FALSE, Empty, 0)) /\ Goto(g, "ret")
+            [] L.term /\ L.lvl = Depth -> SetLoc(g, "res", want) /\ Goto(g, "ret")
+            [] OTHER -> loc' = [loc EXCEPT ![g] = [L EXCEPT !.lvl = L.lvl + 1, !.pos = L.lvl + 1]] /\ Goto(g, "W1")
+    /\ UNCHANGED scratch /\ ScratchFrame
+
+\* schema-vs-schema compatibility of objects, with a guard against comparing a pair that is already being compared
+CmpBegin(g, label, pair, ifNew, ifUnderWay) ==
+    /\ At(g, label)
+    /\ LET L == loc[g] IN
+       IF pair \in Mine(g, SharedInProgress)
+       THEN Put(g, SharedInProgress, L, Mine(g, SharedInProgress)) /\ Goto(g, ifUnderWay)
+       ELSE Put(g, SharedInProgress, L, Mine(g, SharedInProgress) \cup {pair}) /\ Goto(g, ifNew)
+    /\ ScratchFrame
+\* the root pair is under way (in ANOTHER call, under the deviation): "compatible" is returned at once
+CmpRootUnderWay(g) ==
+    /\ At(g, "Q1x")
+    /\ SetLoc(g, "res", Res(TRUE, Empty, 0)) /\ Goto(g, "ret")
+    /\ UNCHANGED scratch /\ ScratchFrame
+\* the nested pair decides: count against count
+CmpLeaf(g) ==
+    /\ At(g, "Q3")
+    /\ Put(g, SharedInProgress, [loc[g] EXCEPT !.term = (cur[g].arg.tok = "same")],
+           Mine(g, SharedInProgress) \ {"pair.lim"})
+    /\ Goto(g, "Q4") /\ ScratchFrame
+CmpEnd(g) ==
+    /\ At(g, "Q4")
+    /\ LET L == loc[g] IN
+       Put(g, SharedInProgress, [L EXCEPT !.res = IF L.term THEN Res(TRUE, Empty, 0) ELSE Res(FALSE, Empty, 0)],
+           Mine(g, SharedInProgress) \ {"pair.root"})
+    /\ Goto(g, "ret") /\ ScratchFrame
+
+\* ------------------------------------------------------------------ nested sub-object defaults ("objnest")
+\* N2: limits was left out of the argument of the struct-mapped root: applySubObjectDefaultValues assembles it
+\* from mid's defaults and, recursively, from the defaults of mid's own sub-objects
+NestPropagate(g) ==
+    /\ At(g, "N2")
+    \* DEVIATION: assembled on mid's shared decoded-defaults map instead of a fresh one
+    /\ cell' = IF AliasDefaults THEN Restrict(LeafDefaults, SubPaths) ELSE cell
+    /\ SetLoc(g, "res", Res(TRUE, MergeOver(Restrict(cur[g].arg.m, {"n"}), MidUnser(Empty, LeafDefaults)), 0))
+    /\ Goto(g, "ret") /\ UNCHANGED defaultsCache /\ ObjFrame
+\* N3: limits was given (or mid is called on its own): mid fills what is left out from ITS defaults
+NestMid(g) ==
+    /\ At(g, "N3")
+    /\ LET top == IF cur[g].op = "unsermid" THEN Empty ELSE Restrict(cur[g].arg.m, {"n"})
+       IN SetLoc(g, "res", Res(TRUE, MergeOver(top, MidUnser(cur[g].arg.m, cell)), 0))
+    /\ Goto(g, "ret") /\ UNCHANGED <<defaultsCache, cell>> /\ ObjFrame
+
 \* ------------------------------------------------------------------ struct-mapped object: validateStruct
 \* The set of present fields is collected in a scratch map, then the interdependency rules are judged on it.
 \* A field that violates its own constraint ends the loop early.
@@ -569,7 +726,10 @@ Step(g) ==
     \/ TopFill(g) \/ SubResolve(g) \/ SubTakeDefault(g)
     \/ SubPropagate(g, "S3a", "sa", "S3b") \/ SubPropagate(g, "S3b", "sb", "S4") \/ SubRead(g) \/ SubOwn(g)
     \* one-of, struct validation, steps
-    \/ OneOfStrip(g) \/ OneOfMemberDone(g) \/ ValidateStruct(g)
+    \/ OneOfStrip(g) \/ OneOfMemberDone(g) \/ ValidateStruct(g) \/ NestPropagate(g) \/ NestMid(g)
+    \/ WalkRead(g) \/ WalkMark(g) \/ WalkClear(g) \/ WalkDone(g)
+    \/ CmpBegin(g, "Q1", "pair.root", "Q2", "Q1x") \/ CmpRootUnderWay(g)
+    \/ CmpBegin(g, "Q2", "pair.lim", "Q3", "Q4") \/ CmpLeaf(g) \/ CmpEnd(g)
     \/ Acquire(g, "L0", "step", "L1") \/ Release(g, "L4", "step", "ret")
     \/ StepLookup(g) \/ StepInit(g) \/ StepDone(g)
 
